@@ -40,7 +40,9 @@ def case(spec, log):
                     os.kill(p, signal.SIGKILL)
             except OSError:
                 pass
-        state['server'] = spawn_server(('127.0.0.1', 0))
+        # close_on_none: a server that stops on an explicit None header (the command-line default) - a client that merely
+        # vanishes must not be mistaken for that
+        state['server'] = spawn_server(('127.0.0.1', 0), close_on_none=bool(spec.get('close_on_none')))
         state['n_servers'] += 1
         state['healthy'] = PersistentRemoteWorker(vtargets.pecho, host=state['server'].addr)
         state['hcount'] = 0
@@ -242,7 +244,7 @@ def run(tier):
     chk = Check('C11', 'fault_enumeration', tier,
                 'recorded client byte streams {worker, persistent worker, context create, context delete, worker in context} replayed against a real server cut at every offset (thorough) / every length-prefix byte, +-4 around message boundaries and seeded offsets (quick), closed with FIN or RST; '
                 'control-channel steps {close data without connecting, connect and close, close after runtime info, vanish while running}; well-framed but unusable messages (garbage, wrong object, None) in place of each of the first four messages of every stream; sequences of 3-5 faulty clients before one probe; '
-                'after each fault: server pid, well-behaved round trip, healthy persistent worker of another client; distinct non-trivial = distinct (stream, offset, ending) / (step, ending) / sequences')
+                'every other shard runs against a server started with close_on_none=True; after each fault: server pid, well-behaved round trip, healthy persistent worker of another client; distinct non-trivial = distinct (stream, offset, ending) / (step, ending) / sequences')
     r = rng('c11')
     faults = []
     # stream lengths are only known inside the case; offsets are clipped there. Upper bounds per stream (measured): ~1100 bytes
@@ -282,7 +284,15 @@ def run(tier):
 
     def one(ij):
         i, fl = ij
-        res = run_case('checks.c11:case', {'faults': fl}, os.path.join(wd, 's%d' % i), timeout=120 + len(fl) * (2 * PROBE_S + 3))
+        if i % 2 == 1:
+            # on such a server a None header is the documented request to stop: not a client failure
+            for f in fl:
+                if f.get('kind') == 'corrupt' and f.get('mode') == 'none' and f.get('msg') == 0:
+                    f['mode'] = 'wrong-object'
+        res = run_case('checks.c11:case', {'faults': fl, 'close_on_none': (i % 2 == 1)}, os.path.join(wd, 's%d' % i), timeout=120 + len(fl) * (2 * PROBE_S + 3))
+        for e in res['events']:
+            if e.get('ev') == 'fault':
+                e['fault']['close_on_none'] = (i % 2 == 1)
         cleanup(res['dir'])
         return fl, res
 
@@ -299,7 +309,8 @@ def run(tier):
                 chk.count('faults_without_probe')
                 continue
             step = step_of(f)
-            chk.case((f['kind'], f.get('stream'), f.get('off') if f['kind'] != 'corrupt' else (f.get('msg'), f.get('mode')), f.get('step'), f['ending'], bool(f.get('sequence'))))
+            chk.case((f['kind'], f.get('stream'), f.get('off') if f['kind'] != 'corrupt' else (f.get('msg'), f.get('mode')), f.get('step'), f['ending'], bool(f.get('sequence')), bool(f.get('close_on_none'))))
+            chk.count('faults_against_close_on_none_server' if f.get('close_on_none') else 'faults_against_default_server')
             chk.count('faults_probed')
             chk.count('step_' + (f.get('stream', 'ctrl') + ':' + step.split(':')[-1])[:50])
             prob = None
@@ -312,7 +323,7 @@ def run(tier):
             elif h.get('healthy_context') not in (None, 'ok'):
                 prob = 'context-of-other-client-lost(%s)' % str(h.get('healthy_context')).split(':')[0]
             if prob:
-                where = ('sequence' if f.get('sequence') else '%s:%s' % (f.get('stream', 'handshake'), step))
+                where = ('sequence' if f.get('sequence') else '%s:%s' % (f.get('stream', 'handshake'), step)) + (':close_on_none-server' if f.get('close_on_none') else '')
                 chk.violation('%s:%s' % (prob, where), 'after a client that %s: %s; health %s' % (
                     ('sent %d of %d bytes of the %s stream (%s) and closed with %s' % (f.get('off', 0), f.get('stream_len', 0), f.get('stream'), step, f['ending'])) if f['kind'] == 'cut' else ('sent an unusable message (%s) in place of message %d of the %s stream' % (f['mode'], f.get('msg', 0) + 1, f.get('stream'))) if f['kind'] == 'corrupt' else ('played control-channel step %s (%s)' % (f['step'], f['ending'])),
                     prob, short(h, 300)), {'fault': f, 'health': h})
